@@ -263,3 +263,52 @@ func TestSharedRT(t *testing.T) {
 		f.Close()
 	}
 }
+
+// TestBuffer: the v2 buffer driven directly (buffer.go); exhaustive short sequences and random long ones.
+func TestBuffer(t *testing.T) {
+	out := os.Getenv("VERIF_OUT")
+	if out == "" {
+		t.Skip("VERIF_OUT not set")
+	}
+	os.MkdirAll(out, 0o755)
+	seed := envInt("VERIF_SEED", 1)
+	from := envInt("VERIF_FROM", 0)
+	n := int(envInt("VERIF_N", 1))
+	maxLen, nRandom := 5, 2000
+	if os.Getenv("VERIF_THOROUGH") != "" {
+		maxLen, nRandom = 6, 20000
+	}
+	if script := os.Getenv("VERIF_SCRIPT"); script != "" {
+		// replay: the same exhaustive set and the random sequences of the recorded seed
+		data, err := os.ReadFile(script)
+		if err != nil {
+			t.Fatal(err)
+		}
+		var s int64
+		var ml, nr int
+		for _, line := range strings.Split(string(data), "\n") {
+			if _, err := fmt.Sscanf(line, "# seed %d maxlen %d random %d", &s, &ml, &nr); err == nil {
+				break
+			}
+		}
+		f, err := os.Create(filepath.Join(out, "replay.hist"))
+		if err != nil {
+			t.Fatal(err)
+		}
+		RunBuffer(s, ml, nr, f)
+		f.Close()
+		return
+	}
+	for i := 0; i < n; i++ {
+		f, err := os.Create(filepath.Join(out, fmt.Sprintf("buffer-ops-%d-%05d.hist", seed, from+int64(i))))
+		if err != nil {
+			t.Fatal(err)
+		}
+		ml := maxLen
+		if from+int64(i) > 0 {
+			ml = 3 // the exhaustive part is the same for every file: only the first carries it in full
+		}
+		RunBuffer(seed*6151+from+int64(i), ml, nRandom, f)
+		f.Close()
+	}
+}
